@@ -189,6 +189,16 @@ class Run:
         else:
             with open(os.path.join(d, "run.cfg"), "w") as f:
                 f.write(cfg)
+        cap = os.environ.get("VERIF_CAPTURE")
+        if cap and files:
+            # keep what a trace validation consumed, for tools/selftest.py (binding self-test)
+            cd = os.path.join(cap, "%s-%s-%d" % (self.prop, module, n))
+            os.makedirs(cd, exist_ok=True)
+            for f in files:
+                shutil.copy(f, cd)
+            shutil.copy(os.path.join(d, "run.cfg"), cd)
+            with open(os.path.join(cd, "case.json"), "w") as f:
+                json.dump({"kind": "trace", "property": self.prop, "module": module, "files": [os.path.basename(x) for x in files]}, f)
         if workers is None:
             workers = NCPU
         cmd = ["timeout", str(timeout), "tlc", "-workers", str(workers), "-metadir", os.path.join(d, "md"),
